@@ -47,6 +47,10 @@ def predicate(spec, out):
     elif abs(out["ll"] - ll_cf) > 1e-7 * max(1.0, abs(ll_cf)):
         errs.append(f"marginal_ln_likelihood = {out['ll']!r} but ln N(y | M mu, C + s^2 I + M Lambda M^T) = {ll_cf!r} "
                     f"(s={spec['theta']['s']}, K prior {spec['kprior']}, offsets {spec['n_off']}, poly_trend {spec['n_poly']}, P prior in {spec['P_unit']}, P0 {spec['P0']})")
+    for v in out.get("ll_in_batch", ()):
+        if not (v == out["ll"] or (math.isnan(v) and math.isnan(out["ll"]))):
+            errs.append(f"marginal_ln_likelihood of the same sample is {out['ll']!r} alone but {v!r} as the last row of a batch whose earlier rows have other jitter / a capped K variance "
+                        f"(s={spec['theta']['s']}, K prior {spec['kprior']})")
     return errs, ll_cf
 
 
